@@ -42,5 +42,12 @@ EvFails(ev) ==
     \cup (IF ev.norm_ppb <= Tol THEN {} ELSE {"norm"})
     [] ev.k = "neg" -> (IF NegatedOK(ev.vals, ev.nvals, ev.w, ev.nw) THEN {} ELSE {"negation"})
     [] ev.k = "divide" -> (IF DividedOK(ev.vals, ev.w, ev.bvals, ev.bw, ev.chunks) THEN {} ELSE {"divide"})
+    \* a distribution of several dimensions: weight [i, j] belongs to value (v0[i], v1[j]) - the joint weights are the outer product of
+    \* the per-axis weights, in the axis order of the values and of the shape
+    [] ev.k = "joint" ->
+         (IF ev.weights_shape = ev.shape THEN {} ELSE {"joint_weights_shape"})
+    \cup (IF ev.joint_ppb <= Tol THEN {} ELSE {"joint_weights_follow_the_axis_order_of_the_values"})
+    \* what a distribution advertises does not change when OTHER distributions are created, negated or divided afterwards
+    [] ev.k = "stable" -> (IF ev.changed_ppb = 0 THEN {} ELSE {"existing_distribution_changed_by_later_calls"})
     [] OTHER -> {"unknown_event"}
 =============================================================================
